@@ -25,6 +25,7 @@ var (
 	ifaceWithV4    []string // names of this machine's interfaces that have an IPv4 address (sorted)
 	ifaceWithoutV4 []string // names of those that have none (sorted)
 	ifaceAddrs     []string // the IPv4 addresses of ifaceWithV4
+	ifaceV4Map     = map[string]string{}
 )
 
 func init() {
@@ -41,6 +42,7 @@ func init() {
 		if a, ok := ifaceIPv4(ifi.Name); ok {
 			ifaceWithV4 = append(ifaceWithV4, ifi.Name)
 			ifaceAddrs = append(ifaceAddrs, a)
+			ifaceV4Map[ifi.Name] = a
 		} else {
 			ifaceWithoutV4 = append(ifaceWithoutV4, ifi.Name)
 		}
